@@ -14,7 +14,7 @@
 # functions are named g<name>_<i> (they do not start with f: the scenario generator calls f<name> only).
 
 ALLOCA = ['none', 'top', 'top-unused', 'top-mov', 'after-label', 'after-branch', 'after-call', 'var-size', 'top+nontop']
-LAYOUT = ['ret-last', 'ret-middle', 'multi-ret', 'ret-then-blocks']
+LAYOUT = ['ret-last', 'ret-middle', 'multi-ret', 'ret-then-blocks', 'switch']
 NONTOP = ('after-label', 'after-branch', 'after-call', 'var-size', 'top+nontop')
 
 
@@ -78,6 +78,13 @@ def callee(rng, gname, mod, alloca, layout, nres=1, inner=None, big=False):
         if has_nontop and rng.random() < 0.5:
             L += ['  alloca q, 16'] + _use('q', 's', 't') + ['  add r, r, t']
         L += ['  sub r, r, s', res()]
+    elif layout == 'switch':
+        # labels of the copy are operands of a switch (duplicated labels redirected in every operand); one case after the ret
+        L += ['  and t, n, 3', '  switch t, L%s_0, L%s_1, L%s_2, L%s_0' % (g, g, g, g), 'L%s_0:' % g, '  add r, r, 1', '  jmp L%s_fin' % g,
+              'L%s_1:' % g]
+        if has_nontop:
+            L += nontop_alloca('q')
+        L += ['  add r, r, %d' % k2, 'L%s_fin:' % g, res(), 'L%s_2:' % g, '  mul r, r, 3', '  jmp L%s_fin' % g]
     else:  # ret-then-blocks: ret is (after simplification) followed by several blocks which all jump back
         L += ['  and t, n, 3', '  beq L%s_1, t, 1' % g, '  beq L%s_2, t, 2' % g, 'L%s_fin:' % g, res(), 'L%s_1:' % g]
         if has_nontop:
@@ -92,11 +99,16 @@ def caller(rng, mod, fname, calls, own_alloca, loop):
     """calls: list of (how, proto, callee, nres).  -> lines of f"""
     L = ['%s: func i64, i64:n' % fname, '  local i64:a, i64:x, i64:y, i64:z, i64:w, i64:i']
     calls = list(calls)
+    if any(c[3] == 'blk' for c in calls):
+        L[1] += ', i64:v'
+        L += ['  alloca v, 16']
+        if own_alloca == 'none':
+            own_alloca = 'plain'
     if own_alloca == 'top':
         L += ['  alloca w, 32', '  mov i64:8(w), n', '  mov a, i64:8(w)', '  mov x, 0']
     elif own_alloca == 'unused':
         L += ['  alloca w, 16', '  mov a, n', '  mov x, 0']
-    elif calls and rng.random() < 0.35:
+    elif own_alloca == 'none' and calls and calls[0][3] != 'blk' and rng.random() < 0.35:
         # the first insn of the caller is the call itself (head_func_insn == call)
         how, pr, g, nres = calls.pop(0)
         L += ['  %s %s, %s, %s, n' % (how, pr, g, ', '.join(['x', 'z'][:nres])), '  mov a, n']
@@ -104,6 +116,10 @@ def caller(rng, mod, fname, calls, own_alloca, loop):
         L += ['  mov a, n', '  mov x, 0']
     L += ['  mov i, %d' % (3 if loop else 1), 'L%s_loop:' % fname]
     for how, pr, g, nres in calls:
+        if nres == 'blk':
+            L += ['  mov i64:(v), a', '  mov i64:8(v), %d' % rng.randrange(1, 99), '  and y, a, 15', '  %s %s, %s, y, blk:16(v), y' % (how, pr, g),
+                  '  add x, x, y', '  add x, x, i64:(v)']
+            continue
         L += ['  and y, a, 31', '  %s %s, %s, %s, y' % (how, pr, g, ', '.join(['y', 'z'][:nres])), '  add x, x, y']
         if nres == 2:
             L += ['  add x, x, z']
@@ -115,7 +131,7 @@ def caller(rng, mod, fname, calls, own_alloca, loop):
 def inl_module(rng, name, force=None, ncallees=None):
     """MIR text of module m<name>.  force = (alloca kind, layout, how) makes the first callee that shape."""
     L = ['m%s: module' % name, '  export f%s' % name, '  import host_add', 'ph%s: proto i64, i64:a, i64:b' % name,
-         'p1%s: proto i64, i64:n' % name, 'p2%s: proto i64, i64, i64:n' % name]
+         'p1%s: proto i64, i64:n' % name, 'p2%s: proto i64, i64, i64:n' % name, 'pb%s: proto i64, blk:16(b), i64:n' % name]
     k = ncallees or rng.choice([1, 1, 2, 3, 4])
     gs, calls = [], []
     for i in range(k):
@@ -147,8 +163,29 @@ def inl_module(rng, name, force=None, ncallees=None):
         gs.append((g, nres))
         for _ in range(rng.choice([1, 1, 2, 3]) if force is None else 2):
             calls.append((how if rng.random() < 0.8 else rng.choice(['inline', 'call']), 'p%d%s' % (nres, name), g, nres))
+    blk = force is None and rng.random() < 0.2
+    if blk:
+        # a callee with a block argument: inlining copies the block (alloca + block move with labels of its own)
+        g = 'g%s_b' % name
+        L += ['%s: func i64, blk:16(b), i64:n' % g, '  local i64:r, i64:t', '  mov r, i64:(b)',
+              '  mov t, i64:8(b)', '  add r, r, t', '  add r, r, n', '  mov i64:(b), 0', '  mov i64:8(b), 0']
+        if rng.random() < 0.5:
+            L += ['  bgt L%s_x, n, 9' % g, 'L%s_f:' % g, '  ret r', 'L%s_x:' % g, '  alloca t, 16', '  mov i64:(t), r', '  mov r, i64:(t)', '  jmp L%s_f' % g]
+        else:
+            L += ['  ret r']
+        L += ['  endfunc']
+        for _ in range(rng.choice([1, 2])):
+            calls.append((rng.choice(['inline', 'call']), 'pb%s' % name, g, 'blk'))
     if force is None:
         rng.shuffle(calls)
+    if force is None and rng.random() < 0.25:
+        # the caller stands BEFORE its callees: it refers to them through forward items (ref_def chain), and they are
+        # copied into it before their own calls have been inlined
+        i0 = next(i for i, l in enumerate(L) if ': func' in l)
+        L = L[:i0] + ['  forward ' + ', '.join(sorted({c[2] for c in calls}))] + caller(
+            rng, name, 'f' + name, calls, rng.choice(['none', 'none', 'top', 'unused']), loop=rng.random() < 0.4) + L[i0:]
+        L += ['  endmodule', '']
+        return '\n'.join(L)
     L += caller(rng, name, 'f' + name, calls, rng.choice(['none', 'none', 'top', 'unused']) if force is None else 'none',
                 loop=rng.random() < 0.4 if force is None else False)
     L += ['  endmodule', '']
